@@ -4,3 +4,4 @@ import MiniconfVerif.Props.C01
 #print axioms MiniconfVerif.C01.at_most_one_leaf_changes
 #print axioms MiniconfVerif.C01.read_after_write
 #print axioms MiniconfVerif.C01.chain_equivalent
+#print axioms MiniconfVerif.C01.histories
